@@ -72,6 +72,10 @@ def _gen_record_spec(rng, index: int, with_genes: Optional[bool] = None) -> Dict
             else:
                 spec["subs"].append({"loc": loc, "label": "sub"})
         spec["create"] = rng.random() < 0.7
+        if rng.random() < 0.4:
+            # the areas exist before the genes, which then arrive in file order (origin-crossing gene first)
+            spec["build_order"] = "areas_first"
+            spec["genes"].sort(key=lambda g: (0 if len(g["parts"]) > 1 else 1, min(p[0] for p in g["parts"])))
     return spec
 
 
